@@ -18,9 +18,20 @@ JSON descriptions
                 | {"t": "neg", "a": node} | {"t": "fn", "fn": "exp"|"log10", "a": node}
                 | {"t": "cls", "cls": <name>, "args": [node...] | None, "keys": [str...] | None, "style": ..., ...}
     case          {"root": node, "wrap": "none"|"ma"|"ma*x"|"x*ma"|"ma/x"|"x/ma", "b": node | None,
-                   "rxn": {"reac": {..}, "prod": {..}, "inact": {..}} | None, "env": {...}}
+                   "rxn": {"reac": {..}, "prod": {..}, "inact": {..}}, "env": {...}, "via": "call"|"rate",
+                   "usys": None | {"m": name, "kg": name, "s": name, "K": name, "mol": name}, "sub": <sub-check>}
+                  wrap: MassAction([root]) alone / multiplied with / divided by `b` (UnaryWrapper semantics);
+                  via:  expr(variables, backend=.., reaction=rxn)  or  Reaction(.., expr).rate(variables, backend=..);
+                  usys: the case writes every unit in these base-unit names (dimensionless combinations then cancel
+                        by name); the unit constants the builder inserts to make the two sides of + / - agree, or to
+                        strip the argument of exp/log10/real powers, are spelled in the same names.
     env           {"T": q, "time": q, "lgT": "value"|"expr", "conc": {sp: q}, "density": q, "dose": {name: q},
                    "named": {k: q}, "over": {key: node}, "x": node, "consts": {"R": q, "kB": q, "h": q}}
+
+Why trees use one unit name per base dimension: `quantities` cannot add a numpy scalar and a quantity whose unit is a
+left-over ratio such as s/min (AttributeError), and compares a plain number with such a quantity by magnitude; both
+are properties of the unit library, not of the formulas judged here.  Mixed names for one dimension (K next to mK,
+kJ/mol next to J/(mol K), M next to mol/m3) are exercised on single class instances and on the parameter sets.
 """
 import math
 from fractions import Fraction as F
